@@ -2,6 +2,7 @@ CONSTANTS
   RATE = 8
   WIDTH = 12
   Mutants = {{"pow_witness"}}
+  EncodeMutant = "none"
   ConfigSet = "one"
 INIT Init
 NEXT Next
